@@ -295,8 +295,8 @@ def search(ctx, S, M):
     cdir = os.path.join(VERIF, 'corpus', 'C01')
     if os.path.isdir(cdir):
         for f in sorted(os.listdir(cdir)):
-            h = json.load(open(os.path.join(cdir, f)))['history']
-            test([tuple(_detuple(op)) for op in h], 'corpus/' + f)
+            cj = json.load(open(os.path.join(cdir, f)))
+            test([tuple(_detuple(op)) for op in cj['history']], 'corpus/' + f, BARE if cj.get('base') == 'BARE' else None)
     # exhaustive: every single mutator, with and without a prior observation; every ordered pair (obs between)
     singles = []
     for nm in names:
